@@ -34,7 +34,6 @@ from ..c07_monitor import wrap_data
 from ..core import Ctx
 from ..instr.sched import drive
 from ..minimize import ddmin
-from ..minimize import ddmin_str
 
 ID = "C07"
 LEVEL = "exploration"
@@ -83,11 +82,120 @@ GLOBALS: dict[str, Any] = {
 }
 GVALS = ["g1", "g2", "gmap.x", "gmap.k", "garr[0].k", "gs.first", "gs[1]", "'lit'", "7", "true", "nil", "'z z'"]
 
+DUMP_NAMES = "[" + ";".join(f"{n}={{{{ {n} }}}}" for n in POOL) + "]"
 DUMP = (
     "[" + ";".join(f"{n}={{{{ {n} }}}}" for n in POOL)
     + ";fl={{ forloop.index }}/{{ forloop.length }}/{{ forloop.parentloop.index }}"
     + ";tr={{ tablerowloop.index }}]"
 )
+
+
+
+# ======================================================================================
+# witness minimisation over Liquid text (structure aware)
+# ======================================================================================
+
+_TOK = re.compile(r"\{%.*?%\}|\{\{.*?\}\}", re.S)
+_BLOCKS = {"for": "endfor", "if": "endif", "unless": "endunless", "case": "endcase", "with": "endwith",
+           "capture": "endcapture", "macro": "endmacro", "tablerow": "endtablerow",
+           "translate": "endtranslate"}
+_ENDS = set(_BLOCKS.values())
+
+
+def _tokens(src: str) -> list[str]:
+    out: list[str] = []
+    pos = 0
+    for m in _TOK.finditer(src):
+        if m.start() > pos:
+            out.append(src[pos:m.start()])
+        out.append(m.group(0))
+        pos = m.end()
+    if pos < len(src):
+        out.append(src[pos:])
+    return out
+
+
+def _tag_name(tok: str) -> str:
+    if not tok.startswith("{%"):
+        return ""
+    m = re.match(r"\{%[-~+]?\s*(\w+)", tok)
+    return m.group(1) if m else ""
+
+
+def _pairs(toks: list[str]) -> list[tuple[int, int]]:
+    stack: list[tuple[str, int]] = []
+    pairs: list[tuple[int, int]] = []
+    for i, t in enumerate(toks):
+        n = _tag_name(t)
+        if n in _BLOCKS:
+            stack.append((n, i))
+        elif n in _ENDS:
+            while stack:
+                name, k = stack.pop()
+                if _BLOCKS[name] == n:
+                    pairs.append((k, i))
+                    break
+    pairs.sort(key=lambda p: p[0] - p[1])  # largest block first
+    return pairs
+
+
+def shrink_liquid(src: str, test: Callable[[str], bool], budget: int = 160) -> str:
+    """Delete whole blocks, unwrap blocks, delete single tokens while test(src) stays True."""
+    calls = 0
+    cur = src
+    progress = True
+    while progress and calls < budget:
+        progress = False
+        toks = _tokens(cur)
+        for i, j in _pairs(toks):
+            for cand in (toks[:i] + toks[j + 1:], toks[:i] + toks[i + 1:j] + toks[j + 1:]):
+                calls += 1
+                c = "".join(cand)
+                if c != cur and test(c):
+                    cur, progress = c, True
+                    break
+            if progress or calls >= budget:
+                break
+        if progress:
+            continue
+        i = 0
+        while i < len(toks) and calls < budget:
+            n = _tag_name(toks[i])
+            if n in _BLOCKS or n in _ENDS or n in ("else", "elsif", "when", "plural"):
+                i += 1
+                continue
+            cand = toks[:i] + toks[i + 1:]
+            calls += 1
+            c = "".join(cand)
+            if test(c):
+                toks, cur, progress = cand, c, True
+            else:
+                i += 1
+    return cur
+
+
+def shrink_case(source: str, partials: dict[str, str], test: Callable[[str, dict[str, str]], bool],
+                budget: int = 220) -> tuple[str, dict[str, str]]:
+    """Shrink the root, then every partial still referenced; drop unreferenced partials."""
+    parts = dict(partials)
+    try:
+        if not test(source, parts):
+            return source, partials
+        source = shrink_liquid(source, lambda s: test(s, parts), budget)
+        for name in sorted(parts):
+            if len(parts[name]) > 12:
+                def t2(s: str, name: str = name) -> bool:
+                    p2 = dict(parts)
+                    p2[name] = s
+                    return test(source, p2)
+                parts[name] = shrink_liquid(parts[name], t2, budget // 3)
+        for name in sorted(parts):
+            p2 = {k: v for k, v in parts.items() if k != name}
+            if test(source, p2):
+                parts = p2
+    except Exception:  # noqa: BLE001
+        return source, partials
+    return source, parts
 
 
 # ======================================================================================
@@ -186,7 +294,8 @@ class Rt:
         return res
 
     # ------------------------------------------------------------------ frame findings
-    def frame_report(self, res: Res, wit: dict[str, Any], shrink: Callable[[str], str] | None = None) -> None:
+    def frame_report(self, res: Res, wit: dict[str, Any],
+                     shrink: Callable[[str], tuple[str, dict[str, str]]] | None = None) -> None:
         """Report the O5 events of one run (witness minimised on first sight of a key)."""
         for key, what, detail in res.events:
             w = dict(wit)
@@ -196,10 +305,12 @@ class Rt:
             if key not in self.reported and shrink is not None:
                 self.reported.add(key)
                 try:
-                    w["minimised_from"] = w["source"]
-                    w["source"] = shrink(key)
+                    small, parts = shrink(key)
+                    if small != w["source"] or parts != w["partials"]:
+                        w["minimised_from"] = {"source": w["source"], "partials": w["partials"]}
+                        w["source"], w["partials"] = small, parts
                 except Exception:  # noqa: BLE001
-                    w.pop("minimised_from", None)
+                    pass
             self.ctx.violation(key, what + (f" — {detail}" if detail else ""), w)
 
 
@@ -213,15 +324,15 @@ def frame_case(rt: Rt, kind: str, source: str, partials: dict[str, str], data: d
         wit = {"source": source, "partials": partials, "data": data, "env": kind, "mode": mode,
                "own": own, "fault": list(fault) if fault else None}
 
-        def shrink(key: str) -> str:
-            if fault is not None or len(source) > 3000:
-                return source
+        def shrink(key: str) -> tuple[str, dict[str, str]]:
+            if fault is not None:
+                return source, partials  # (the k-th access moves when the text changes)
 
-            def still(s: str) -> bool:
-                r2 = rt.run(env, s, data, mode, own=own)
+            def still(s: str, p: dict[str, str]) -> bool:
+                r2 = rt.run(rt.env(kind, p), s, data, mode, own=own)
                 return any(k == key for k, _w, _d in r2.events)
 
-            return ddmin_str(source, still, max_calls=250)
+            return shrink_case(source, partials, still)
 
         rt.frame_report(res, wit, shrink)
     return res
@@ -273,6 +384,7 @@ PREFIX_LEAK = {
     "wrap:for": "caller-for-scope-visible", "wrap:with": "caller-with-scope-visible",
     "wrap:include": "caller-include-args-visible", "wrap:tablerow": "caller-tablerow-scope-visible",
     "wrap:macro": "caller-macro-params-visible", "wrap:capture": "caller-capture-block-visible",
+    "wrap:render": "caller-render-args-visible",
 }
 
 
@@ -337,10 +449,10 @@ class Pair:
         r = self.r
         out: list[dict[str, Any]] = []
         for _ in range(r.choice([0, 1, 1, 2])):
-            kind = r.choice(["for", "for", "with", "capture", "include", "tablerow", "macro"])
+            kind = r.choice(["for", "for", "with", "capture", "include", "tablerow", "macro", "render"])
             n = r.choice(POOL)
-            if kind == "macro" and (self.construct == "call" or any(w["kind"] in ("macro",) for w in out)):
-                kind = "with"
+            if kind == "tablerow" and any(w["kind"] == "tablerow" for w in out):
+                kind = "for"  # (liquid2 does not parse a tablerow nested in a tablerow)
             if kind == "tablerow":
                 self.env_kind = "shopify"
             if kind == "for":
@@ -352,7 +464,7 @@ class Pair:
             elif kind == "tablerow":
                 w = {"open": [f"{{% tablerow {n} in (1..2) cols: 2 %}}", f"{{% tablerow {n} in (8..9) cols: 2 %}}"],
                      "close": "{% endtablerow %}"}
-            elif kind == "include":
+            elif kind in ("include", "render"):
                 form = r.choice(["kw", "with", "for"])
                 if form == "kw":
                     args = [f", {n}: 'I1'", f", {n}: 'I2'"]
@@ -367,11 +479,10 @@ class Pair:
             w["kind"] = kind
             w["name"] = n
             out.append(w)
-        if self.construct == "call" and any(w["kind"] == "macro" for w in out):
-            out = [w for w in out if w["kind"] != "macro"]
         for wi, w in enumerate(out):
-            # include is (rightly) refused inside a macro body: no include wrapper below a macro wrapper
-            if w["kind"] == "macro":
+            # include is (rightly) refused inside a macro body or a rendered partial: no include
+            # wrapper below a macro / render wrapper
+            if w["kind"] in ("macro", "render"):
                 out = out[: wi + 1] + [x for x in out[wi + 1:] if x["kind"] != "include"]
                 break
         return out
@@ -458,7 +569,7 @@ class Pair:
     # ------------------------------------------------------------------ emission
     def emit(self, variant: int, with_tag: bool = True, prefix: list[dict[str, Any]] | None = None,
              body: list[tuple[str, str]] | None = None, wraps: list[dict[str, Any]] | None = None,
-             partials: dict[str, str] | None = None) -> str:
+             partials: dict[str, str] | None = None, suffix: bool = True) -> str:
         """variant 0 = bare caller, 1/2 = the two value assignments. Generated partials are
         added to *partials* under names unique to (variant, with_tag)."""
         prefix = self.prefix if prefix is None else prefix
@@ -476,18 +587,24 @@ class Pair:
         if variant == 0:
             return macrodef + RL + tag + RR
         v = variant - 1
-        text = RL + tag + RR + self.suffix_in
+        # the macro is defined right next to its call so that it exists in whatever context
+        # the wrappers create (macros are per render context)
+        text = macrodef + RL + tag + RR + (self.suffix_in if suffix else "")
         for wi in range(len(wraps) - 1, -1, -1):
             w = wraps[wi]
             if w["kind"] == "include":
                 name = f"inc{wi}v{variant}{'t' if with_tag else 'n'}"
                 partials[name] = text
                 text = f"{{% include '{name}'{w['inc_args'][v]} %}}"
+            elif w["kind"] == "render":
+                name = f"rw{wi}v{variant}{'t' if with_tag else 'n'}"
+                partials[name] = text
+                text = f"{{% render '{name}'{w['inc_args'][v]} %}}"
             elif w["kind"] == "macro":
                 text = w["open"][v] + text + w["close_v"][v]
             else:
                 text = w["open"][v] + text + w["close"]
-        return macrodef + "".join(st["v"][v] for st in prefix) + text + self.suffix_out
+        return "".join(st["v"][v] for st in prefix) + text + (self.suffix_out if suffix else "")
 
     def caller_names(self, prefix: list[dict[str, Any]], wraps: list[dict[str, Any]]) -> set[str]:
         return {st["name"] for st in prefix if st["kind"] != "macrodef"} | {w["name"] for w in wraps}
@@ -504,14 +621,14 @@ class PairCheck:
         self.pair = pair
         self.mode = mode
 
-    def sources(self, prefix=None, body=None, wraps=None) -> tuple[dict[str, str], dict[str, str]]:
+    def sources(self, prefix=None, body=None, wraps=None, suffix: bool = True) -> tuple[dict[str, str], dict[str, str]]:
         parts: dict[str, str] = {}
         p = self.pair
         srcs = {
-            "v1": p.emit(1, True, prefix, body, wraps, parts),
-            "v2": p.emit(2, True, prefix, body, wraps, parts),
-            "bare": p.emit(0, True, prefix, body, wraps, parts),
-            "v1_without_tag": p.emit(1, False, prefix, body, wraps, parts),
+            "v1": p.emit(1, True, prefix, body, wraps, parts, suffix),
+            "v2": p.emit(2, True, prefix, body, wraps, parts, suffix),
+            "bare": p.emit(0, True, prefix, body, wraps, parts, suffix),
+            "v1_without_tag": p.emit(1, False, prefix, body, wraps, parts, suffix),
         }
         return srcs, parts
 
@@ -541,7 +658,7 @@ class PairCheck:
             verdict["o1"] = "v1-vs-v2"
         elif any(x != r0[0] for x in r1):
             verdict["o1"] = "v1-vs-bare"
-        if strip_regions(outs["v1"].out) != outs["v1_without_tag"].out:
+        if "v1_without_tag" in outs and strip_regions(outs["v1"].out) != outs["v1_without_tag"].out:
             verdict["o2"] = "caller-output-changed"
         return verdict
 
@@ -584,12 +701,13 @@ def run_pair(rt: Rt, seed: str, j: int, tier: str) -> None:
                     cap=16 if tier == "quick" else 80, both=tier != "quick", j=j)
 
 
-def _minimise_pair(chk: PairCheck, which: str) -> tuple[list, list, list]:
+def _minimise_pair(chk: PairCheck, which: str) -> tuple[list, list, list, bool]:
     pair = chk.pair
+    suffix = True
 
     def failing(prefix, body, wraps) -> bool:
         try:
-            s, p = chk.sources(prefix, body, wraps)
+            s, p = chk.sources(prefix, body, wraps, suffix)
             v = chk.evaluate(s, p, report_frames=False)
             return not v["errors"] and bool(v[which])
         except Exception:  # noqa: BLE001
@@ -608,15 +726,26 @@ def _minimise_pair(chk: PairCheck, which: str) -> tuple[list, list, list]:
             prefix = []
     if len(body) > 1:
         body = ddmin(body, lambda c: failing(prefix, c, wraps), max_calls=80)
-    return prefix, body, wraps
+    if which == "o1":
+        suffix = False
+        if not failing(prefix, body, wraps):
+            suffix = True
+        if len(body) == 1 and body[0][0] == "dump":
+            for n in POOL:
+                cand = [("read:" + n, f"<{{{{ {n} }}}}>")]
+                if failing(prefix, cand, wraps):
+                    body = cand
+                    break
+    return prefix, body, wraps, suffix
 
 
 def report_o1(rt: Rt, chk: PairCheck, v: dict[str, Any], base: dict[str, Any]) -> None:
     pair = chk.pair
-    prefix, body, wraps = _minimise_pair(chk, "o1")
+    prefix, body, wraps, suffix = _minimise_pair(chk, "o1")
     leaks = sorted({PREFIX_LEAK[st["kind"]] for st in prefix} | {PREFIX_LEAK["wrap:" + w["kind"]] for w in wraps})
     key = f"O1:{pair.construct}:{'+'.join(leaks) if leaks else 'differs-from-bare-caller'}"
-    srcs, parts = chk.sources(prefix, body, wraps)
+    srcs, parts = chk.sources(prefix, body, wraps, suffix)
+    srcs.pop("v1_without_tag", None)
     v2 = chk.evaluate(srcs, parts, report_frames=False)
     wit = dict(base)
     wit.update({"oracle": "O1", "key": key, "sources": srcs, "partials": parts, "outputs": v2["outs"],
@@ -632,7 +761,7 @@ def report_o1(rt: Rt, chk: PairCheck, v: dict[str, Any], base: dict[str, Any]) -
 
 def report_o2(rt: Rt, chk: PairCheck, v: dict[str, Any], base: dict[str, Any]) -> None:
     pair = chk.pair
-    prefix, body, wraps = _minimise_pair(chk, "o2")
+    prefix, body, wraps, _suffix = _minimise_pair(chk, "o2")
     kinds = sorted({k.split(":")[0] for k, _s in body} - {"dump", "read"}) or sorted({k.split(":")[0] for k, _s in body})
     key = f"O2:{pair.construct}:{'+'.join(kinds)}-escaped"
     srcs, parts = chk.sources(prefix, body, wraps)
@@ -804,6 +933,7 @@ class O4Gen:
         self.binders: set[str] = set()
         self.probe_binder: dict[int, str] = {}
         self.error_leaf: str | None = None
+        self.in_tablerow = 0
 
     def program(self) -> tuple[str, dict[str, str], dict[str, Any]]:
         r = self.r
@@ -877,7 +1007,7 @@ class O4Gen:
     def construct(self, depth: int, in_loop: bool, enclosing: list[str], iso: bool) -> str:  # noqa: PLR0912, PLR0915
         r = self.r
         kinds = ["for", "for", "with", "include", "render", "macro", "lambda", "lambda", "translate", "t-filter"]
-        if self.env_kind == "shopify":
+        if self.env_kind == "shopify" and not self.in_tablerow:
             kinds += ["tablerow", "tablerow"]
         if iso:  # include is refused inside render / macro bodies (that is O3, not O4)
             kinds = [k for k in kinds if k != "include"]
@@ -892,12 +1022,16 @@ class O4Gen:
         if kind == "for":
             it = r.choice(["(1..3)", "garr", "gs", "gmap", "'fa', 'fb'", "(1..4)"])
             opts = r.choice(["", "", " limit: 2", " offset: 1", " reversed", " limit: 2 offset: 1"])
+            if "," in it:
+                opts = ""  # (loop options after an array literal do not parse)
             body = self.stmts(depth + 1, True, enclosing + [n], inner_n, iso)
             src = f"{{% for {n} in {it}{opts} %}}{body}" + r.choice(["", "{% else %}E"]) + "{% endfor %}"
             names = [n, "forloop"]
         elif kind == "tablerow":
             it = r.choice(["(1..3)", "garr", "gs"])
+            self.in_tablerow += 1  # (liquid2 does not parse a tablerow nested in a tablerow)
             body = self.stmts(depth + 1, True, enclosing + [n], inner_n, iso)
+            self.in_tablerow -= 1
             src = f"{{% tablerow {n} in {it} cols: 2 %}}{body}{{% endtablerow %}}"
             names = [n, "tablerowloop"]
         elif kind == "with":
@@ -990,23 +1124,19 @@ def run_o4(rt: Rt, seed: str, j: int, tier: str) -> None:
     for nid, before, after in bad[:2]:
         label = g.probe_binder.get(nid, "?")
         key = f"O4:{label}:outer-not-restored"
-        env = rt.env(g.env_kind, parts)
 
-        def still(s: str, nid: int = nid) -> bool:
-            r2 = rt.run(env, s, data, mode)
+        def still(s: str, p: dict[str, str], nid: int = nid) -> bool:
+            r2 = rt.run(rt.env(g.env_kind, p), s, data, mode)
             return r2.ok and any(b[0] == nid for b in o4_check(r2.out)[1])
 
-        small = src
+        small, sparts = src, parts
         if key not in rt.reported:
             rt.reported.add(key)
-            try:
-                small = ddmin_str(src, still, max_calls=300)
-            except Exception:  # noqa: BLE001
-                small = src
+            small, sparts = shrink_case(src, parts, still)
         ctx.violation(
             key,
             f"probe before the {label} construct printed {before!r}, the same probe right after it printed {after!r}",
-            {"oracle": "O4", "key": key, "source": small, "partials": parts, "data": data, "env": g.env_kind,
+            {"oracle": "O4", "key": key, "source": small, "partials": sparts, "data": data, "env": g.env_kind,
              "mode": mode, "construct_id": nid, "minimised_from": src if small != src else None},
         )
 
@@ -1063,6 +1193,43 @@ def run_frame(rt: Rt, seed: str, j: int, tier: str) -> None:
                     both=tier != "quick", j=j)
 
 
+
+DEPTH_CONSTRUCTS = [
+    ("for", "{% for a in (1..2) %}{{ a }}{% endfor %}"),
+    ("for-in-for", "{% for a in (1..2) %}{% for b in (1..2) %}{{ b }}{% endfor %}{% endfor %}"),
+    ("tablerow", "{% tablerow a in (1..2) %}{{ a }}{% endtablerow %}"),
+    ("with", "{% with a: 1 %}{{ a }}{% endwith %}"),
+    ("include-kw", "{% include 'dq', a: 1 %}"),
+    ("include-for", "{% include 'dq' for gs as a %}"),
+    ("include-loop", "{% include 'dl' %}"),
+    ("render-kw", "{% render 'dq', a: 1 %}"),
+    ("render-for", "{% render 'dq' for gs as a %}"),
+    ("macro", "{% macro dm a %}{{ a }}{% endmacro %}{% call dm 1 %}"),
+    ("lambda-map", "{{ garr | map: a => a.x | join: ',' }}"),
+    ("lambda-find", "{{ garr | find: a => a.x == 2 | json }}"),
+    ("translate", "{% translate a: 1 %}T {{ a }}{% endtranslate %}"),
+    ("t-filter", "{{ 'T %(a)s' | t: a: 1 }}"),
+    ("capture-for", "{% capture a %}{% for b in (1..2) %}{{ b }}{% endfor %}{% endcapture %}{{ a }}"),
+]
+
+
+def run_depth_sweep(rt: Rt, spec: dict[str, Any]) -> None:
+    """Every binder construct at every nesting depth around the context-depth limit: the
+    ContextDepthError is raised by each extend() in turn."""
+    ctx = rt.ctx
+    parts = {"dq": "[{{ a }}]", "dl": "{% for b in (1..2) %}{{ b }}{% endfor %}"}
+    for name, construct in DEPTH_CONSTRUCTS:
+        kind = "shopify" if name == "tablerow" else "std"
+        for n in range(18, 34):
+            src = "{% with zz: 1 %}" * n + construct + "‹{{ a }}›" + "{% endwith %}" * n
+            for mode in ("sync", "async"):
+                res = frame_case(rt, kind, src, parts, GLOBALS, mode, own=True)
+                ctx.count("depth_sweep_runs")
+                if not res.ok:
+                    ctx.count("depth_sweep_raised")
+                    ctx.seen("depth_sweep_errors", f"{name}:{res.err}")
+
+
 # ======================================================================================
 # O6 : render ... for — iteration independence
 # ======================================================================================
@@ -1087,6 +1254,8 @@ def run_o6(rt: Rt, seed: str, j: int, tier: str) -> None:
     stmts = [pair._body_stmt(k) for k in range(r.randint(1, 5))]
     # the alias itself is never re-assigned by the body (that would hide the item)
     stmts = [(k, s) for k, s in stmts if not (k.split(":")[0] in ("assign", "capture") and k.endswith(":" + alias))]
+    # forloop fields are printed only inside the mask: the dumps used here print names only
+    stmts = [(k, DUMP_NAMES if k == "dump" else s) for k, s in stmts]
     if not stmts:
         stmts = [("read:" + alias, f"<{{{{ {alias} }}}}>")]
     items = r.sample(["i1", "i2", "i3", "i4", 5, 6, 7], r.randint(2, 4))
@@ -1098,7 +1267,7 @@ def run_o6(rt: Rt, seed: str, j: int, tier: str) -> None:
     in_loop = r.random() < 0.3
 
     def build(body: list[tuple[str, str]]) -> tuple[str, dict[str, str]]:
-        parts = {"p": head + "".join(s for _k, s in body) + RR, "q": "(q" + DUMP + ")"}
+        parts = {"p": head + "".join(s for _k, s in body) + RR, "q": "(q" + DUMP_NAMES + ")"}
         root = f"{{% render 'p' for arr as {alias} %}}"
         if in_loop:
             root = "{% for zz in (1..2) %}" + root + "{% endfor %}"
@@ -1203,11 +1372,12 @@ def floors(tier: str) -> dict[str, int]:
         "fault_injections_raised": 500 * k,
         "lambda_scopes_pushed": 500 * k,
         "O3_refusals": 1000,
+        "depth_sweep_raised": 100,
         "O4_probe_pairs": 1000 * k,
         "O6_order_pairs": 150 * k,
         "set:o4_binders": 25,
         "set:constructs": 4,
-        "set:wrappers": 6,
+        "set:wrappers": 7,
         "set:lambda_filters": 10,
     }
 
@@ -1218,6 +1388,7 @@ def run_shard(spec: dict[str, Any], ctx: Ctx) -> None:
         kind = spec["kind"]
         if kind == "o3":
             run_o3(rt, spec)
+            run_depth_sweep(rt, spec)
             return
         fn = KINDS[kind]
         seed = f"{spec['seed']}:{spec['i']}"
